@@ -4,6 +4,7 @@ import (
 	"crypto/sha1"
 	"encoding/json"
 	"fmt"
+	"log/slog"
 	"net/url"
 	"os"
 	"os/exec"
@@ -311,9 +312,22 @@ func raceChild() {
 					more = append(more, op.WithAllowInsecure())
 				}
 				op.NewProvider(w.sharedCfg, st.AsStorage(true, true, true), w.issuerFns[0], more...)
-				op.NewProvider(w.sharedCfg, st.AsStorage(true, true, true), w.issuerFns[0], op.WithLogger(quiet),
+				p2, err := op.NewProvider(w.sharedCfg, st.AsStorage(true, true, true), w.issuerFns[0], op.WithLogger(quiet),
 					op.WithCustomAuthEndpoint(op.NewEndpoint(fmt.Sprint("auth", it))), op.WithCustomTokenEndpoint(op.NewEndpoint(fmt.Sprint("tok", it))))
+				if err == nil { // legacy servers with default / caller CORS options and info / debug fallback loggers
+					so := []op.ServerOption{op.WithFallbackLogger([]*slog.Logger{quiet, debugQuiet}[it%2])}
+					if it%3 == 0 {
+						so = append(so, op.WithServerCORSOptions(w.corsOpt))
+					}
+					op.RegisterLegacyServer(op.NewLegacyServer(p2, *op.DefaultEndpoints), op.AuthorizeCallbackHandler(p2), so...)
+				}
 				return
+			}
+			if g == 1 { // ... while another goroutine registers legacy servers too
+				if p3, ok := w.inst[1].(*op.Provider); ok {
+					lh := op.RegisterLegacyServer(op.NewLegacyServer(p3, *op.DefaultEndpoints), op.AuthorizeCallbackHandler(p3), op.WithFallbackLogger([]*slog.Logger{debugQuiet, quiet}[it%2]))
+					get(lh, oidc.DiscoveryEndpoint, nil)
+				}
 			}
 			get(h, oidc.DiscoveryEndpoint, nil)
 			get(h, "/authorize", authQ)
